@@ -509,6 +509,14 @@ class History:
             else:
                 kw["counts"] = {}
         kw_call = dict(kw)
+        if rng.random() < 0.25:
+            # counts and mapping put together from NumPy arrays (dict(zip(*numpy.unique(a, return_counts=True)))):
+            # keys and values are NumPy scalars
+            if "counts" in kw_call:
+                kw_call["counts"] = {numpy.int64(k): numpy.int64(v) for k, v in kw_call["counts"].items()}
+            if "mapping" in kw_call:
+                kw_call["mapping"] = {numpy.int64(k): numpy.int64(v) for k, v in kw_call["mapping"].items()}
+            self.ctx.count("from_array:counts/mapping_of_numpy_scalars")
         np_common = "common" in kw and rng.random() < 0.3
         if np_common:
             # "a value of the same type as the given values": an element of the array itself (a.max(), a[0])
@@ -765,7 +773,12 @@ class History:
         snap = monitors.snapshot(r.x)
         msnap = dict(mp)
         self.log("reindexed", mapping=dict(mp), kind=kind, copy=copy, shift=shift, assume_unique=au)
-        res = r.x.reindexed(dict(mp) if rng.random() < 0.5 else mp, copy=copy, shift=shift, assume_unique=au)
+        arg = dict(mp) if rng.random() < 0.5 else mp
+        if rng.random() < 0.2:
+            # a mapping zipped together from NumPy arrays: keys and values are NumPy scalars
+            arg = {numpy.int64(k): numpy.int64(v) for k, v in mp.items()}
+            self.ctx.count("reindexed:mapping_of_numpy_scalars")
+        res = r.x.reindexed(arg, copy=copy, shift=shift, assume_unique=au)
         mm = numpy.array([mp.get(int(v), int(v)) for v in r.m.ravel().tolist()], dtype=I64).reshape(r.m.shape)
         live = Live(res, mm, "reindexed")
         self.unchanged(snap, r.x, "reindexed(receiver)")
